@@ -8,10 +8,11 @@ package dbSync
 //vf:job C03 thorough VF_C03_Send k=2 resume=0 sc=0..2
 //vf:job C04 quick VF_C03_Send k=2 resume=1 sc=0..2
 //vf:job C04 quick VF_C04_ResumeLeg
+//vf:job C04 quick VF_C04_ResumeTwice
 //vf:job C04 thorough VF_C03_Send k=3 resume=1 sc=0..2 opt_preempt=1
 //vf:job C04 thorough VF_C03_Send k=2 resume=1 sc=0..2
 //vf:replayE C03 VF_C03_Send
-//vf:replayE C04 VF_C03_Send VF_C04_ResumeLeg
+//vf:replayE C04 VF_C03_Send VF_C04_ResumeLeg VF_C04_ResumeTwice
 //vf:opt C03 preempt=1 thorough_preempt=2
 //vf:opt C04 preempt=1 thorough_preempt=2
 //vf:stub C04 time.NewTicker: a channel fed by the harness at a symbolic point (every relative timing of the 500 ms tick is a scheduling choice); target connection: model target with MULTI/EXEC semantics; metric.GetMetric: private object
@@ -21,6 +22,7 @@ package dbSync
 //vf:outside C04 process crash inside redigo's write buffer at byte granularity
 
 import (
+	"github.com/alibaba/RedisShake/pkg/redis"
 	"strconv"
 	"strings"
 	"time"
@@ -349,7 +351,9 @@ func VF_C04_ResumeLeg() {
 	tick <- time.Time{}
 	// the loader reads back exactly what the sender stored
 	vfStub("github.com/alibaba/RedisShake/redis-shake/common.OpenRedisConn",
-		func(target []string, authType, passwd string, isCluster bool, tls bool) (redigo.Conn, error) { return r, nil })
+		func(target []string, authType, passwd string, isCluster bool, tls bool) (redigo.Conn, error) {
+			return r, nil
+		})
 	runid, loaded, ldb, err := checkpoint.LoadCheckpoint(0, "s:1", []string{"t:1"}, "auth", "pw", "ckpt", false, false)
 	vfAssert(err == nil, "loader refused the checkpoint the sender wrote")
 	vfAssert(runid == "rid-1" && loaded == off+7 && ldb == db, "loader does not read back run id / offset / database as written by the sender")
@@ -368,5 +372,53 @@ func VF_C04_ResumeLeg() {
 		vfAssert(it.Offset == loaded, "the re-select of a resumed run is tagged with an offset other than the loaded checkpoint offset")
 	}
 	_ = utils.CheckpointKey
+	vfAssertTwin(err != nil, "twin")
+}
+
+// a run resumed in a database other than 0 forwards a command before the source names a database,
+// then the source switches to database 0 and writes there; a second restart must find a complete
+// checkpoint (run id, version, offset of the last command) in database 0
+func VF_C04_ResumeTwice() {
+	vfStubEnv()
+	conf.Options.Metric = false
+	conf.Options.SenderCount = 1
+	conf.Options.SenderSize = 1 << 40
+	conf.Options.TargetDB = -1
+	conf.Options.FilterDBWhitelist, conf.Options.FilterDBBlacklist = nil, nil
+	conf.Options.FilterKeyWhitelist, conf.Options.FilterKeyBlacklist = nil, nil
+	tick := make(chan time.Time)
+	vfStub("time.NewTicker", func(d time.Duration) *time.Ticker { return &time.Ticker{C: tick} })
+	r := vfNewRedis()
+	startDb := 1 + vfPick("db", 2)
+	loaded := int64(500) // (a symbolic offset multiplies the paths by its digit forms; VF_C04_ResumeLeg has it symbolic)
+	var stream []byte
+	add := func(name string, args ...[]byte) {
+		enc, err := redis.EncodeToBytes(redis.ChangeArgsToResp([]byte(name), args))
+		if err != nil {
+			vfFail("encode")
+		}
+		stream = append(stream, enc...)
+	}
+	add("set", vfBytes("key", 1), vfBytes("val", 1))
+	add("select", []byte("0"))
+	add("set", vfBytes("key", 1), vfBytes("val", 1))
+	ds := &DbSyncer{id: 0, node: &slot.SyncNode{Source: "s:1"}, sendBuf: make(chan cmdDetail, 8), checkpointName: "ckpt", runId: "rid-1", enableResumeFromBreakPoint: true}
+	ds.startDbId = startDb
+	ds.sourceOffset = loaded
+	go ds.sendTargetCommand(r)
+	rd := &readerThenPark{data: stream, done: make(chan int, 1)}
+	go ds.parseSourceCommand(bufioReader(rd))
+	<-rd.done
+	vfWaitFor(func() bool { return len(ds.sendBuf) == 0 })
+	tick <- time.Time{}
+	tick <- time.Time{}
+	vfStub("github.com/alibaba/RedisShake/redis-shake/common.OpenRedisConn",
+		func(target []string, authType, passwd string, isCluster bool, tls bool) (redigo.Conn, error) {
+			return r, nil
+		})
+	runid, off, db, err := checkpoint.LoadCheckpoint(0, "s:1", []string{"t:1"}, "auth", "pw", "ckpt", false, false)
+	vfAssert(err == nil, "the checkpoint written by a resumed run cannot be loaded (version or format refused)")
+	vfAssert(runid == "rid-1", "the newest checkpoint of a resumed run carries no run id")
+	vfAssert(off == loaded+int64(len(stream)) && db == 0, "the newest checkpoint is not (offset after the last command, database of the last command)")
 	vfAssertTwin(err != nil, "twin")
 }
